@@ -145,7 +145,31 @@ fn mutate(u: &mut Unstructured, s: &str) -> arbitrary::Result<String> {
     const INS: &[char] = &['0', '1', '5', '7', '9', '*', ',', '-', '/', ' ', 'a', 'n', 'M', 'Z', '+', '\t', 'é', '\u{a0}'];
     let mut cs: Vec<char> = s.chars().collect();
     let pos = if cs.is_empty() { 0 } else { u.int_in_range(0..=cs.len() - 1)? };
-    match u.int_in_range(0..=8u8)? {
+    match u.int_in_range(0..=9u8)? {
+        9 => {
+            // characters whose Unicode case mapping yields an ASCII letter (long s, dotless i, Kelvin
+            // sign, dotted capital I): a lookup that upper- or lower-cases with the Unicode tables
+            // instead of the ASCII ones takes them for that letter
+            let spots: Vec<usize> = cs.iter().enumerate().filter(|(_, c)| matches!(c.to_ascii_lowercase(), 's' | 'i' | 'k')).map(|(i, _)| i).collect();
+            if let Some(&at) = spots.get(u.below(spots.len().max(1) as u64)? as usize) {
+                cs[at] = match cs[at].to_ascii_lowercase() {
+                    's' => '\u{17f}',
+                    'k' => '\u{212a}',
+                    _ => *u.choose(&['\u{131}', '\u{130}'])?,
+                };
+            } else {
+                // no such letter: put a name that has one into the month / weekday field first
+                let mut fields: Vec<String> = s.split_whitespace().map(|f| f.to_string()).collect();
+                if fields.len() == 5 {
+                    if u.ratio(1, 2)? {
+                        fields[3] = (*u.choose(&["\u{17f}ep", "\u{17f}EP", "Sep-\u{17f}ep", "1,\u{17f}ep"])?).to_string();
+                    } else {
+                        fields[4] = (*u.choose(&["\u{17f}un", "\u{17f}at", "fr\u{131}", "FR\u{130}", "mon-fr\u{131}", "\u{17f}UN"])?).to_string();
+                    }
+                    return Ok(fields.join(" "));
+                }
+            }
+        }
         7 | 8 => {
             // a name where it does not belong: one item of one field replaced by a month or weekday
             // name (any case) - month names in the weekday field, weekday names in the month field,
